@@ -170,7 +170,12 @@ Definition link_delta (prev next : style) : list tok :=
   if zlist_eqb (link prev) (link next) then []
   else [TOsc8 (match link next with [] => [] | _ => linkp next end) (link next)].
 
-(* the loop of EncodeCells / StyledString.Encode; [cur] is the Go variable cursor *)
+(* the loop of EncodeCells / StyledString.Encode; [cur] is the Go variable cursor.
+   A BLANK cell (Grapheme == "": the zero-value Character of an untouched screen cell, or the
+   continuation cell of a wide character) is not special to either loop: its pen delta and OSC 8
+   are written, [cursor = next.Style] is executed, and WriteString("") adds no byte ([TText []]
+   prints as nothing).  So the pen of a blank cell is carried to the next cell and to the final
+   reset exactly like the pen of any other cell. *)
 Fixpoint enc_loop (legacy : bool) (cur : style) (cs : list cell) : list tok :=
   match cs with
   | [] => if style_eqb cur style0 then [] else [TSgr []]
@@ -186,10 +191,15 @@ Definition ss_encode (cs : list cell) : list tok := enc_loop false style0 cs.
 
 (* render: what one row of cells (no hyperlinks) contributes between the CUP and the
    end of the frame; Flush appends sgrReset *)
+(* vaxis.go render: [if next.Width == 0 { next.Width = vx.characterWidth(next.Grapheme) }] and then
+   [case next.Width == 0: WriteString(" ")].  The harness draws cells with an empty grapheme with
+   Width 0 and all others with Width 1; the measured width of the empty string is 0 (a sum over no
+   runes), so a blank cell is drawn as one space - AFTER its pen delta, and the pen is remembered. *)
+Definition shown (g : text) : text := match g with [] => [32] | _ => g end.
 Fixpoint render_loop (legacy rgb smulx : bool) (cur : pen) (cs : list pcell) : list tok :=
   match cs with
   | [] => [TSgr []]
-  | (g, p) :: t => map TSgr (pen_delta legacy rgb smulx cur p) ++ TText g :: render_loop legacy rgb smulx p t
+  | (g, p) :: t => map TSgr (pen_delta legacy rgb smulx cur p) ++ TText (shown g) :: render_loop legacy rgb smulx p t
   end.
 Definition render_row (legacy rgb smulx : bool) (cs : list pcell) : list tok :=
   render_loop legacy rgb smulx pen0 cs.
@@ -400,11 +410,34 @@ Definition new_styled_string (dflt : pen) (toks : list tok) : res (list pcell * 
 
 (* ---------- specification predicates on observations ---------- *)
 
+(* a cell is blank when its grapheme is empty *)
+Definition nonblank {A} (c : text * A) : bool := negb (zlist_eqb (fst c) []).
+(* cells over the named constants; the grapheme may be empty (blank cell) *)
+Definition wf_scellb (c : cell) : bool := wf_penb (spen (snd c)).
+Definition wf_spcellb (c : pcell) : bool := wf_penb (snd c).
 Definition wf_cellb (c : cell) : bool := wf_penb (spen (snd c)) && negb (zlist_eqb (fst c) []).
 Definition wf_pcellb (c : pcell) : bool := wf_penb (snd c) && negb (zlist_eqb (fst c) []).
 Definition no_link (c : cell) : bool := zlist_eqb (link (snd c)) [].
 Definition pcell_of (c : cell) : pcell := (fst c, spen (snd c)).
 Definition pcells_eqb := list_eqb pcell_eqb.
+
+(* The round-trip clause on one observation, blank cells included: [got] (what a consumer read)
+   against [want] (what was encoded).  A cell with a grapheme must come back as itself, with its
+   own pen, in order.  A blank cell has no grapheme to return: it may come back not at all or as
+   one space carrying the blank cell's own pen (the predicate does not prescribe how an encoder
+   draws a blank) - but it must not disturb the pens of the cells around it.  Nothing else may
+   come back.  Without blank cells this is [pcells_eqb got want] (cells_match_nonblank). *)
+Fixpoint cells_match (want got : list pcell) : bool :=
+  match want with
+  | [] => match got with [] => true | _ => false end
+  | (g, p) :: t =>
+      if zlist_eqb g [] then
+        cells_match t got
+        || match got with c :: got' => pcell_eqb c ([32], p) && cells_match t got' | [] => false end
+      else match got with c :: got' => pcell_eqb c (g, p) && cells_match t got' | [] => false end
+  end.
+(* what the model's decoders return for encoded cells: the cells that have a grapheme *)
+Definition shown_cells (cs : list cell) : list pcell := map pcell_of (filter nonblank cs).
 
 Definition res_pen_eqb (a b : res pen) : bool :=
   match a, b with Ok x, Ok y => pen_eqb x y | Panic, Panic => true | _, _ => false end.
@@ -480,16 +513,16 @@ Definition codec_model_ok (c : codec_case) : bool :=
            && res_only_cells_eqb (new_styled_string pen0 tE) (o_styledE o)
       else true).
 
-(* The property on one observation: every decoder returned the cells that were encoded, and
-   the string leaves the pen reset.  [with_styledE] = false leaves out NewStyledString applied
+(* The property on one observation: every decoder returned the cells that were encoded
+   ([cells_match]: blank cells included), and the string leaves the pen reset.  [with_styledE] = false leaves out NewStyledString applied
    to EncodeCells' output (the conjunct the finding legacy-sgr-newstyledstring is about). *)
 Definition codec_holds_gen (with_styledE : bool) (c : codec_case) : bool :=
   let '(legacy, cells, o) := c in
-  if forallb wf_cellb cells then
+  if forallb wf_scellb cells then
     let want := map pcell_of cells in
-    pcells_eqb (o_parsed o) want && pcells_eqb (o_term o) want
+    cells_match want (o_parsed o) && cells_match want (o_term o)
     && (if forallb no_link cells
-        then pcells_eqb (o_styled o) want && (if with_styledE then pcells_eqb (o_styledE o) want else true)
+        then cells_match want (o_styled o) && (if with_styledE then cells_match want (o_styledE o) else true)
         else true)
     && pen_eqb (o_fin_parse o) pen0 && pen_eqb (o_fin_term o) pen0
   else true.
@@ -529,8 +562,9 @@ Definition render_model_ok (c : render_case) : bool :=
 
 Definition render_holds_gen (with_styled : bool) (c : render_case) : bool :=
   let '((legacy, rgb, smulx), cells, o) := c in
-  if forallb wf_pcellb cells then
-    let want := map (fun c => (fst c, eff_pen rgb smulx (snd c))) cells in
+  if forallb wf_spcellb cells then
+    (* the renderer must draw a blank cell: it comes back as a space with the blank cell's pen *)
+    let want := map (fun c => (shown (fst c), eff_pen rgb smulx (snd c))) cells in
     pcells_eqb (r_parsed o) want && (if with_styled then pcells_eqb (r_styled o) want else true)
     && pcells_eqb (r_term o) want && pen_eqb (r_fin_term o) pen0
   else true.
